@@ -15,7 +15,7 @@ from common import Case, Failure, f2x, flist, clist, parse_flist, np_rng
 
 PID = 'C08'
 LEAN_TARGETS = ['Nitime.Props.C08']
-RULE = ('scenarios from one PRNG state: 2..5 coupled channels (common cause + sinusoids + noise), lengths 64..256 (quick) / ..2048 '
+RULE = ('scenarios from one PRNG state: 2..5 coupled channels (common cause + sinusoids + noise; amplitudes 1e-9..1e4), gains 1e-9..1e6 of both signs, explicit n_overlap=0, lengths 64..256 (quick) / ..2048 '
         '(thorough); Welch with NFFT of both parities, explicit/default overlap, hanning/array windows; multitaper (fixed, adaptive) and '
         'periodogram through get_spectra; CoherenceAnalyzer and MTCoherenceAnalyzer; bands lb/ub on and off the grid; every scenario '
         'yields one case per observable (coherency, coherence, phase, delay, band averages, partial); distinct = distinct protocol line; '
@@ -171,13 +171,13 @@ def make_scenarios(rng, tier, seed):
     out = []
     n_w = 60 if big else 22
     for s in range(n_w):
-        nch = rng.choice([2, 3, 3, 4, 5])
+        nch = rng.choice([2, 3, 4, 4, 5, 5])
         NFFT = rng.choice([8, 16, 16, 32, 32, 64, 7, 15, 33] if not big else [8, 16, 32, 64, 64, 128, 7, 15, 33, 63])
         n = rng.choice([64, 96, 128, 200, 256] if not big else [64, 128, 256, 500, 1024, 2048])
         if big and n >= 1024 and NFFT < 32:
             NFFT = 64
         c = rng.random()
-        nov = None if c < 0.3 else rng.randrange(0, NFFT)
+        nov = None if c < 0.3 else (0 if c < 0.4 else rng.randrange(0, NFFT))      # explicit 0 is a value, not "unset"
         if rng.random() < 0.08:
             n = rng.randrange(NFFT // 2 + 1, NFFT + 2)       # at most one segment, zero padded
         if n > 256:      # keep the number of segments of long records near 60 (the model's DFT is the naive one)
@@ -186,18 +186,23 @@ def make_scenarios(rng, tier, seed):
                 nov = NFFT - min_step
         wk = rng.choice(['hann', 'hann', 'hamming', 'boxcar', 'rand'])
         Fs = rng.choice([1.0, 2.0, 2 * math.pi, 10.0, 0.5, 250.0, rng.uniform(0.1, 100)])
-        out.append({'kind': 'welch', 'data': gen_data(nr, nch, n).tolist(), 'NFFT': NFFT, 'nov': nov, 'win': wk,
+        data = gen_data(nr, nch, n)
+        if rng.random() < 0.3:        # tiny / very different channel amplitudes: nothing may be floored at an epsilon
+            data = data * np.array([10.0 ** rng.choice([-9, -7, -5, -3, 0, 3]) for _ in range(nch)])[:, None]
+        out.append({'kind': 'welch', 'data': data.tolist(), 'NFFT': NFFT, 'nov': nov, 'win': wk,
                     'winvals': None if wk == 'hann' else win_vals(wk, NFFT, nr), 'Fs': Fs, 'band_u': [rng.random() for _ in range(8)]})
     for s in range(14 if big else 5):
-        nch = rng.choice([2, 3, 4])
+        nch = rng.choice([2, 3, 4, 4, 5])
         n = rng.choice([64, 100, 128, 255] if not big else [64, 128, 255, 512, 1024])
         Fs = rng.choice([1.0, 2 * math.pi, 10.0])
+        amp = (10.0 ** rng.choice([-8, -5, 0, 0, 4])) if rng.random() < 0.4 else 1.0
         out.append({'kind': 'csd', 'method': rng.choice(['multi_taper_csd', 'multi_taper_csd_adaptive', 'periodogram_csd']),
-                    'data': gen_data(nr, nch, n).tolist(), 'Fs': Fs, 'band_u': [rng.random() for _ in range(8)]})
+                    'data': (gen_data(nr, nch, n) * amp).tolist(), 'Fs': Fs, 'band_u': [rng.random() for _ in range(8)]})
     for s in range(10 if big else 4):
-        nch = rng.choice([2, 3, 4])
+        nch = rng.choice([2, 3, 4, 4, 5])
         n = rng.choice([64, 101, 128] if not big else [64, 101, 128, 256, 513])
-        out.append({'kind': 'mta', 'adaptive': rng.random() < 0.5, 'data': gen_data(nr, nch, n).tolist(),
+        amp = (10.0 ** rng.choice([-8, -5, 0, 0, 4])) if rng.random() < 0.4 else 1.0
+        out.append({'kind': 'mta', 'adaptive': rng.random() < 0.5, 'data': (gen_data(nr, nch, n) * amp).tolist(),
                     'Fs': rng.choice([1.0, 2 * math.pi, 10.0])})
     return out
 
@@ -306,22 +311,24 @@ def ok_r(a):
 
 
 def cond_ok(fxy):
-    """relative floor of the auto-spectra (degenerate spectra are skipped and counted)"""
+    """relative floor of every auto-spectrum over its own bins (degenerate spectra are skipped and counted);
+    channels may differ in scale by any factor"""
     n = fxy.shape[0]
-    d = np.array([np.real(fxy[i, i]) for i in range(n)])
-    return bool(np.all(np.isfinite(d)) and d.min() > 1e-7 * d.max() and d.min() > 0)
+    for i in range(n):
+        d = np.real(fxy[i, i])
+        if not (np.all(np.isfinite(d)) and d.min() > 0 and d.min() > 1e-7 * d.max()):
+            return False
+    return True
 
 
 def phase_weights(fxy, idx_fn, shape):
-    """1 where the cross-spectrum entry behind a phase is well above the rounding floor"""
-    mx = np.abs(fxy).max()
+    """1 where the cross-spectrum entry behind a phase is well above the rounding floor: |coherency| > 1e-6"""
     w = np.zeros(shape)
     for pos in np.ndindex(*shape):
         i, j, k = idx_fn(pos)
         a, b = (i, j) if i <= j else (j, i)
-        w[pos] = 1.0 if abs(fxy[a, b, k]) > 1e-6 * mx and not (a == b) else 0.0
-        if a == b and abs(fxy[a, b, k]) > 1e-6 * mx:
-            w[pos] = 1.0
+        den = math.sqrt(abs(fxy[a, a, k].real * fxy[b, b, k].real))
+        w[pos] = 1.0 if den > 0 and abs(fxy[a, b, k]) > 1e-6 * den else 0.0
     return w.reshape(-1).tolist()
 
 
@@ -395,9 +402,9 @@ def cases_of(sc, R, si):
     # (DC, Nyquist) flips between +pi and -pi with rounding; then only the magnitude is compared
     bl = 1 if lb == 0 else int(np.searchsorted(f, lb, 'left'))
     bu = len(f) if ub is None else int(np.searchsorted(f, ub, 'right'))
-    band = np.array([fxy[i, j, bl:bu] for i in range(nch) for j in range(i + 1, nch)])
-    wrap_safe = band.size > 0 and bool(np.all(np.abs(band) > 1e-6 * np.abs(fxy).max()) and
-                                       np.all(np.pi - np.abs(np.angle(band)) > 1e-6))
+    band = np.array([fxy[i, j, bl:bu] / np.sqrt(np.abs(fxy[i, i, bl:bu].real * fxy[j, j, bl:bu].real))
+                     for i in range(nch) for j in range(i + 1, nch)])
+    wrap_safe = band.size > 0 and bool(np.all(np.abs(band) > 1e-6) and np.all(np.pi - np.abs(np.angle(band)) > 1e-6))
     for what, conv in (('cohbavg', ok_r), ('cybavg', ok_c)):
         r = R[what]
         if isinstance(r, str) or np.all(np.isfinite(np.abs(r))):
@@ -493,7 +500,7 @@ def inv_partial(S3):
 
 
 def _pc(fxy, fxx, fyy, fxr, fyr, frr):
-    """the recorded defect in closed form: |R_xy - R_xr R_yr|^2 / ((1-|R_xr|^2)(1-|R_yr|^2)) (R_yr where R_ry belongs)"""
+    """signature of the defect repaired in 1cdba75, in closed form: |R_xy - R_xr R_yr|^2 / ((1-|R_xr|^2)(1-|R_yr|^2)) (R_yr where R_ry belongs)"""
     with np.errstate(all='ignore'):
         Rxr = fxr / np.sqrt(fxx * frr)
         Ryr = fyr / np.sqrt(fyy * frr)
@@ -512,7 +519,7 @@ def same_orientation(S, chans, r, semi):
 
 
 def same_orientation_analyzer(fxy):
-    """today's CoherenceAnalyzer.coherence_partial from the semi-filled spectrum (zeros below the diagonal)"""
+    """signature of the defect repaired in e12f747: coherence_partial computed from the semi-filled spectrum (zeros below the diagonal)"""
     n = fxy.shape[0]
     out = np.zeros((n, n, n, fxy.shape[-1]))
     for i in range(n):
@@ -669,7 +676,7 @@ def judge(sc, R, gain_rng=None):
     if gain_rng is not None and not isinstance(cy, str):
         A = tsa()
         m_ = gain_rng.randrange(nch)
-        g = gain_rng.choice([-1.0, -0.37, 2.5, -4.0, 1e-3, -1e3])
+        g = gain_rng.choice([-1.0, -0.37, 2.5, -4.0, 1e-3, -1e3, 1e-7, -1e-9, 1e6])
         X2 = X.copy()
         X2[m_] *= g
         meth = (lambda: method_of(sc)) if sc['kind'] == 'welch' else (lambda: csd_method_of(sc))
